@@ -25,7 +25,7 @@ var (
 	ggNumbers = []string{"0", "1", "-1", "42", "10", "007", "08", "0019", "-09", "010", "-0", "2147483648", "9223372036854775807", "-9223372036854775808", "100"}
 	ggHuge    = []string{"9223372036854775808", "18446744073709551616", "-9223372036854775809", "99999999999999999999999999999999"}
 	ggStrings = []string{"", "hello", "a b", `a\"b`, `\"`, `a\"`, `\"a\"`, " lead", "trail ", "k", "x y z", "//nc", "/* c */", "it's", "1/2", "$v", "@a"}
-	ggUnicode = []string{"é", "日本", "🙂", "añb", "ünï", "→x", "a🙂b", "a\u0085b", "l\u2028s", "p\u2029", "\u00a0", "\ufeffx"}
+	ggUnicode = []string{"é", "日本", "🙂", "añb", "ünï", "→x", "a🙂b", "a\u0085b", "l\u2028s", "p\u2029", "\u00a0", "\ufeffx", "caf\ufffd", "\ufffd"}
 	ggAssets  = []string{"USD", "EUR/2", "COIN", "A", "USD/", "BTC/8", "1INCH", "X9", "U/S/D"}
 	ggAccts   = []string{"a", "b", "world", "users:001", "a-b_c", "A:B:c", "0", "dest", "x_1:y-2"}
 	ggVars    = []string{"x", "acc", "a_b", "_u", "v1", "amount", "p", "x"}
